@@ -28,9 +28,6 @@ Proof.
           | exfalso; destruct H as [H | H]; vm_compute in H; discriminate H ].
 Qed.
 
-Definition frame_texts (es : list event) : list text :=
-  flat_map (fun e => match e with EExec t | ESkip t | ESyntax t => [t] | _ => [] end) es.
-
 Lemma frame_texts_app : forall a b, frame_texts (a ++ b) = frame_texts a ++ frame_texts b.
 Proof. intros. unfold frame_texts. apply flat_map_app. Qed.
 
@@ -361,10 +358,6 @@ Section Sim.
     revert H. generalize (snd (file_fold fstate0 s)). induction l as [| t r IH]; intro H; [constructor |].
     simpl in H. apply app_eq_nil in H. destruct H as [Ha Hb]. constructor; [exact Ha | exact (IH Hb)].
   Qed.
-
-  (* what of a run reaches stdout: everything but the frames parsed and not executed after exit *)
-  Definition visible (es : list event) : list event :=
-    filter (fun e => match e with ESkip _ => false | _ => true end) es.
 
   Lemma visible_app : forall a b, visible (a ++ b) = visible a ++ visible b.
   Proof. intros. unfold visible. apply filter_app. Qed.
